@@ -203,7 +203,7 @@ func (p ICMP6RouterSolicitation) SourceLLA() net.HardwareAddr {
 }
 
 func (p ICMP6RouterSolicitation) Options() (NewOptions, error) {
-	if len(p) <= 24 {
+	if len(p) <= 8 { // RFC 4861 4.1: the options follow the 4 byte header and the 4 reserved bytes
 		return NewOptions{}, nil
 	}
 	/**
@@ -214,7 +214,7 @@ func (p ICMP6RouterSolicitation) Options() (NewOptions, error) {
 		}
 	}
 	**/
-	return newParseOptions(p[24:])
+	return newParseOptions(p[8:])
 }
 
 func (p ICMP6RouterSolicitation) String() string {
